@@ -43,12 +43,12 @@ type c05Msg struct {
 }
 
 type c05Resp struct {
-	Code int      `json:"code"`
-	Sid  string   `json:"sid,omitempty"`
-	Auth string   `json:"auth,omitempty"`
-	Num  uint64   `json:"num,omitempty"`
-	Msgs []c05Msg `json:"msgs,omitempty"`
-	Err  string   `json:"err,omitempty"`
+	Code  int      `json:"code"`
+	Sid   string   `json:"sid,omitempty"`
+	Auth  string   `json:"auth,omitempty"`
+	Num   uint64   `json:"num,omitempty"`
+	Msgs  []c05Msg `json:"msgs,omitempty"`
+	Err   string   `json:"err,omitempty"`
 	Cmids []uint64 `json:"cmids,omitempty"`
 }
 
